@@ -4,12 +4,24 @@ import Ysgo.Props.C15
 /-!
 # C13 — markup parsing recovers the plain text and exactly the enclosed ranges
 
-`MarkupSpec.expected` (Ysgo/Spec/MarkupSpec.lean) is the chunk-level specification. Proved here, for every incoming
-parser state: the parser model agrees with it on every line rendered from *core* chunks (`isCore`: text, escaped
-brackets, open / close / close-all / self-closing markers without properties, with arbitrary Unicode white space in
-every slot of a marker, arbitrary identifiers as names, any nesting, overlap and repetition), and `TextForAttribute`
-returns the enclosed text. Chunks with properties and replacement markers (C13.2, C13.3) are covered by the executable
-comparison `expected` ⇄ model ⇄ implementation in the `markup` stream (profile `chunks`) only.
+`MarkupSpec.expected` (Ysgo/Spec/MarkupSpec.lean) is the chunk-level specification; `none` = the parser has to report an
+error. All theorems hold for every incoming parser state.
+
+* C13.0 `parse_plain_text`, `parse_escaped_brackets`: PROVED.
+* C13.1 `parse_render_core` (+ `parse_render_core_error`, `parse_render_core_full`, `parse_render_core_text`): PROVED, both
+  sides (result and error), for lists of *core* chunks (`isCore`: text, escaped brackets, open / close / close-all /
+  self-closing markers without properties, arbitrary Unicode white space in every slot of a marker, arbitrary identifiers
+  as names, any nesting, overlap and repetition); `TextForAttribute` returns the enclosed text.
+* C13.2 `parse_render_props_partial`: PROVED for the shorthand `[name=value]` and any number of properties whose values
+  are integers, booleans, quoted strings or bare words, on the side where the specification prescribes a result.
+  Not proved: decimal values, and the error side (integer beyond `int`, non-boolean `trimwhitespace`).
+* C13.3 `parse_render_replacement` (`nomarkup`, `select`, `plural`, `ordinal`): NOT proved.
+* C13.4 `character_prefix`: PROVED for lines without markers (`character_prefix`, `character_prefix_exact`); for lines with
+  markers the implicit attribute is part of `expected`, hence of `parse_render_core` / `parse_render_props_partial`.
+
+Everything not proved is covered by the executable comparison `expected` ⇄ model ⇄ implementation in the `markup` stream
+(profile `chunks`), where the generated chunk lists contain decimals, out-of-range integers, non-boolean `trimwhitespace`
+and replacement markers with every case.
 -/
 namespace Ysgo.Markup
 open Ysgo.Unicode Ysgo.MarkupSpec
